@@ -162,3 +162,27 @@ Definition corner_coords (M : mesh) (row : list nat) : list point := map (fun c 
 Definition block_geometry (M : mesh) (b : nat * list (list nat)) : list (nat * list point) :=
   map (fun row => (fst b, corner_coords M row)) (snd b).
 Definition cell_geometry (M : mesh) : list (nat * list point) := flat_map (block_geometry M) (cells M).
+
+(* ---- MeshFieldsComparator: the retry ladder (mesh/_mesh_fields_comparator.py:54-124) ---------------------------- *)
+(* The views of the later stages (extended, stripped + point-sorted, cell-sorted) are inputs: they are whatever the
+   transformations produced; the ladder only decides which pair is compared and which verdict is returned. *)
+Record ladder_views := { lv_as_is : mesh * mesh; lv_extended : mesh * mesh; lv_sorted_points : mesh * mesh;
+                         lv_sorted_cells : mesh * mesh }.
+
+Definition space_dim (M : mesh) : nat := match pts M with p :: _ => length p | [] => 0 end.
+
+(* returns (domain verdict, index of the stage whose views were compared last: 0 as-is, 1 extended, 2 sorted points,
+   3 sorted cells) *)
+Definition ladder (eq : mesh -> mesh -> bool) (disable_dim disable_reorder both_structured : bool) (v : ladder_views) : bool * nat :=
+  let '(a0, b0) := lv_as_is v in
+  if eq a0 b0 then (true, 0)
+  else
+    let dims_differ := negb (space_dim a0 =? space_dim b0) in
+    let try_ext := dims_differ && negb disable_dim in
+    let '(a1, b1) := lv_extended v in
+    if try_ext && eq a1 b1 then (true, 1)
+    else if disable_reorder || both_structured then (false, if try_ext then 1 else 0)
+    else
+      let '(a2, b2) := lv_sorted_points v in
+      if eq a2 b2 then (true, 2)
+      else let '(a3, b3) := lv_sorted_cells v in (eq a3 b3, 3).
